@@ -19,6 +19,7 @@ fn main() {
         let toks: Vec<&str> = line.split_whitespace().collect();
         let res = match mode.as_str() {
             "cc" => cc::run(&toks),
+            "ccmt" => cc::run_mt(&toks),
             // a panic inside the crate under test on one generated file is reported for that file, not as a dead harness
             "bp" => std::panic::catch_unwind(std::panic::AssertUnwindSafe(|| bp::run(&toks))).unwrap_or_else(|_| "PANIC".to_string()),
             "cand" => cand::run_cand(&toks),
